@@ -104,6 +104,7 @@ package sio
 //@   ensures[C15] applied: err == nil && ordinary(mid) && state != nil ==> c.Machines[mid].State == state
 //@   ensures[C15] reported: ordinary(mid) && state != nil ==> (mid in c.changed) && c.changed[mid] != nil && c.changed[mid].State == state
 //@   ensures[C15] srcreported: ordinary(mid) && src != nil ==> (mid in c.changed) && c.changed[mid] != nil && c.changed[mid].SpecSrc == src
+//@   ensures[C15] statekept: old(mid in c.Machines) && state == nil ==> (mid in c.Machines) && c.Machines[mid] == old(c.Machines[mid]) && c.Machines[mid].State == old(c.Machines[mid].State) && c.Machines[mid].State.NodeName == old(c.Machines[mid].State.NodeName)
 //@   ensures[C15] recreated: err == nil && ordinary(mid) && (mid in c.changed) ==> c.changed[mid] != nil && !c.changed[mid].Deleted
 //@   ensures[C15] others: forall k string :: k != mid ==> ((k in c.Machines) <==> old(k in c.Machines)) && c.Machines[k] == old(c.Machines[k])
 
@@ -124,6 +125,7 @@ package sio
 //@   ensures[C15] nocaptain: err == nil ==> !("captain" in changed)
 //@   ensures[C15] deletedshape: err == nil ==> forall k string :: (k in changed) && changed[k].Deleted ==> changed[k].State == nil && changed[k].SpecSrc == nil
 //@   ensures[C15] subset: err == nil ==> forall k string :: (k in changed) ==> old(k in c.changed)
+//@   ensures[C15] forgotten: err == nil ==> forall k string :: (k in changed) && changed[k].Deleted ==> !(k in c.previous)
 //@   loop 0 invariant wfChanged(c) && changed != nil && fresh(changed) && c.changed != nil && c.previous != nil
 //@   loop 0 invariant[C15] forall k string :: seen(0)[k] ==> !(k in c.changed)
 //@   loop 0 invariant[C15] forall k string :: (k in c.changed) ==> atloop(k in c.changed)
@@ -134,6 +136,8 @@ package sio
 //@   loop 1 invariant[C15] !("captain" in changed) && forall k string :: (k in changed) ==> changed[k] != nil && fresh(changed[k]) && old(k in c.changed)
 //@   loop 1 invariant[C15] forall k string :: (k in changed) && changed[k].Deleted ==> changed[k].State == nil && changed[k].SpecSrc == nil
 //@   loop 1 invariant[C15] forall k string :: !(k in c.changed)
+//@   loop 1 invariant[C15] forall k string :: (k in changed) ==> atloop(k in changed)
+//@   loop 1 invariant[C15] forall k string :: seen(1)[k] && (k in changed) && changed[k].Deleted ==> !(k in c.previous)
 
 //@ func (*Crew).RunMachines returns acc, err
 //@   safety C14
